@@ -120,6 +120,7 @@ pub fn invlpgb_case<S: x86_64::structures::paging::page::NotGiantPageSize>(r: &m
     }
     let end = from_pos(endpos as u64);
     let range = Page::<S>::range(Page::from_start_address(VirtAddr::new(start)).unwrap(), Page::from_start_address(VirtAddr::new(end)).unwrap());
+    unsafe { crate::simcpu::RUNAWAY = Some(("C11".into(), "C11|Invlpgb::flush|does-not-terminate".into(), case.clone())) };
     cpu().clear_events();
     let res = run_fault(|| {
         let mut b0 = inv.build();
